@@ -1,8 +1,987 @@
-(* Proofs about the queue with overflow to disk (C19, queue-level C20). *)
-From Coq Require Import List NArith ZArith Bool Lia.
+(* Proofs about the queue with overflow to disk (C19, queue-level C20):
+   - general lemmas on strictly sorted lists, mergeSortedMessageSlices, the store;
+   - the invariant [Inv] relating the model state to the unlimited list (ghost state of the run);
+   - one preservation lemma per label (push, pop, requeue, ack, purge, loader turn, persist tick);
+   - refinement of the unlimited FIFO list under the hypotheses [wf_client] and [no_findings],
+     hence configuration independence and queueLength = contents (partial theorems);
+   - the refutations of the full-strength statements (open findings F24, F40). *)
+From Coq Require Import List NArith ZArith Bool Lia Sorted.
 Import ListNotations.
 From GMQ Require Import Data.QueueSwap.
 Open Scope N_scope.
+
+(* ---- general list lemmas ---------------------------------------------------------------------- *)
+Notation ssorted := (StronglySorted N.lt).
+
+Lemma inb_In : forall k l, inb k l = true <-> In k l.
+Proof.
+  intros k l. unfold inb. rewrite existsb_exists. split.
+  - intros (x & Hx & E). apply N.eqb_eq in E. subst. exact Hx.
+  - intros H. exists k. split; [exact H | apply N.eqb_refl].
+Qed.
+
+Lemma inb_false : forall k l, inb k l = false <-> ~ In k l.
+Proof. intros. rewrite <- inb_In. destruct (inb k l); split; congruence. Qed.
+
+Lemma inb_app : forall k a b, inb k (a ++ b) = inb k a || inb k b.
+Proof. intros. unfold inb. apply existsb_app. Qed.
+
+Lemma set_key_In : forall l k x, In x (set_key l k) <-> In x l \/ x = k.
+Proof.
+  intros l k x. unfold set_key. destruct (inb k l) eqn:E.
+  - apply inb_In in E. split; [auto | intros [H | H]; subst; auto].
+  - rewrite in_app_iff. cbn. intuition.
+Qed.
+
+Lemma inb_set_key : forall l k x, inb x (set_key l k) = inb x l || (x =? k).
+Proof.
+  intros. apply eq_true_iff_eq. rewrite orb_true_iff, !inb_In, set_key_In, N.eqb_eq. tauto.
+Qed.
+
+Lemma minus_In : forall l d x, In x (minus l d) <-> In x l /\ ~ In x d.
+Proof. intros. unfold minus. rewrite filter_In, negb_true_iff, inb_false. tauto. Qed.
+
+Lemma ssorted_app_last : forall l x, ssorted l -> Forall (fun k => k < x) l -> ssorted (l ++ [x]).
+Proof.
+  induction l; intros x Hs Hf; cbn.
+  - constructor; constructor.
+  - inversion Hs; subst. inversion Hf; subst. constructor.
+    + apply IHl; assumption.
+    + apply Forall_app. split; [assumption | constructor; [assumption | constructor]].
+Qed.
+
+Lemma ssorted_filter : forall f l, ssorted l -> ssorted (filter f l).
+Proof.
+  induction l; intros Hs; cbn; [constructor|]. inversion Hs; subst. destruct (f a).
+  - constructor; [auto|]. rewrite Forall_forall in *. intros x Hx. apply filter_In in Hx. apply H2. tauto.
+  - auto.
+Qed.
+
+Lemma In_firstn : forall {A} n (l : list A) x, In x (firstn n l) -> In x l.
+Proof. induction n; intros l x H; cbn in H; [contradiction|]. destruct l; [contradiction|]. destruct H; [left; auto | right; auto]. Qed.
+
+Lemma ssorted_firstn : forall n l, ssorted l -> ssorted (firstn n l).
+Proof.
+  induction n; intros l Hs; cbn; [constructor|]. destruct l; [constructor|]. inversion Hs; subst. constructor; [auto|].
+  rewrite Forall_forall in *. intros x Hx. apply H2. eapply In_firstn; eauto.
+Qed.
+
+Lemma ssorted_head_lt : forall a l x, ssorted (a :: l) -> In x l -> a < x.
+Proof. intros a l x H Hx. inversion H; subst. rewrite Forall_forall in H3. auto. Qed.
+
+(* two strictly sorted lists with the same elements are equal *)
+Lemma ssorted_unique : forall l1 l2, ssorted l1 -> ssorted l2 -> (forall x, In x l1 <-> In x l2) -> l1 = l2.
+Proof.
+  induction l1 as [| a l1 IH]; intros l2 H1 H2 E.
+  - destruct l2; [reflexivity|]. exfalso. apply (E n). left; reflexivity.
+  - destruct l2 as [| b l2]; [exfalso; apply (E a); left; reflexivity|].
+    assert (a = b).
+    { destruct (proj1 (E a) (or_introl eq_refl)) as [Hb | Hb]; [auto|].
+      destruct (proj2 (E b) (or_introl eq_refl)) as [Ha | Ha]; [auto|].
+      pose proof (ssorted_head_lt _ _ _ H2 Hb). pose proof (ssorted_head_lt _ _ _ H1 Ha). lia. }
+    subst b. f_equal. inversion H1; subst. inversion H2; subst. apply IH; auto.
+    intros x. split; intros Hx.
+    + destruct (proj1 (E x) (or_intror Hx)) as [Hb | Hb]; [|exact Hb].
+      subst x. rewrite Forall_forall in H4. specialize (H4 _ Hx). lia.
+    + destruct (proj2 (E x) (or_intror Hx)) as [Hb | Hb]; [|exact Hb].
+      subst x. rewrite Forall_forall in H6. specialize (H6 _ Hx). lia.
+Qed.
+
+Lemma ssorted_last_max : forall l d x, ssorted l -> In x l -> x <= last l d.
+Proof.
+  induction l as [| a l IH]; intros d x Hs Hx; [contradiction|].
+  inversion Hs; subst. destruct l as [| b l].
+  - destruct Hx as [Hx | []]. subst. cbn. lia.
+  - change (last (a :: b :: l) d) with (last (b :: l) d). destruct Hx as [Hx | Hx].
+    + subst. specialize (IH d b H1 (or_introl eq_refl)). rewrite Forall_forall in H2. specialize (H2 b (or_introl eq_refl)). lia.
+    + apply IH; auto.
+Qed.
+
+Lemma last_In : forall (l : list N) d, l <> [] -> In (last l d) l.
+Proof.
+  induction l as [| a l IH]; intros d H; [congruence|]. destruct l as [| b l]; [left; reflexivity|].
+  right. change (last (a :: b :: l) d) with (last (b :: l) d). apply IH. discriminate.
+Qed.
+
+Lemma filter_nil : forall {A} (f : A -> bool) l, (forall x, In x l -> f x = false) -> filter f l = [].
+Proof. induction l; intros H; cbn; [reflexivity|]. rewrite (H a (or_introl eq_refl)). apply IHl. intros; apply H; right; assumption. Qed.
+
+Lemma filter_all : forall {A} (f : A -> bool) l, (forall x, In x l -> f x = true) -> filter f l = l.
+Proof. induction l; intros H; cbn; [reflexivity|]. rewrite (H a (or_introl eq_refl)). f_equal. apply IHl. intros; apply H; right; assumption. Qed.
+
+Lemma ssorted_app_inv : forall a b, ssorted (a ++ b) -> ssorted a /\ ssorted b /\ (forall x y, In x a -> In y b -> x < y).
+Proof.
+  induction a as [| h a IH]; intros b H; cbn in *.
+  - repeat split; [constructor | assumption | intros; contradiction].
+  - inversion H; subst. destruct (IH _ H2) as (Sa & Sb & Hlt). rewrite Forall_forall in H3. repeat split.
+    + constructor; [assumption|]. rewrite Forall_forall. intros x Hx. apply H3. apply in_or_app; left; assumption.
+    + assumption.
+    + intros x y [Hx | Hx] Hy; [subst; apply H3; apply in_or_app; right; assumption | auto].
+Qed.
+
+Lemma In_skipn : forall {A} n (l : list A) x, In x (skipn n l) -> In x l.
+Proof. induction n; intros l x H; cbn in H; [assumption|]. destruct l; [contradiction|]. right; auto. Qed.
+
+(* loading a prefix of what is ahead on disk: what remains ahead is the rest *)
+Lemma prefix_split : forall (on : N -> bool) lm ids j D L,
+  ssorted ids ->
+  D = filter (fun k => (lm <? k) && on k) ids ->
+  L = firstn j D ->
+  filter (fun k => (last L lm <? k) && on k) ids = skipn j D.
+Proof.
+  intros on lm ids j D L Hs ED EL0.
+  assert (SD : ssorted D) by (subst D; apply ssorted_filter; assumption).
+  pose proof (firstn_skipn j D) as E. rewrite <- EL0 in E.
+  destruct L as [| l0 L'].
+  - (* nothing loaded *)
+    cbn [last]. cbn [app] in E. rewrite E. symmetry. exact ED.
+  - set (m := last (l0 :: L') lm).
+    assert (Hm : In m (l0 :: L')) by (apply last_In; discriminate).
+    rewrite <- E in SD. destruct (ssorted_app_inv _ _ SD) as (SL & SK & Hlt).
+    assert (HmD : In m D) by (rewrite <- E; apply in_or_app; left; assumption).
+    rewrite ED in HmD. apply filter_In in HmD. destruct HmD as [_ HmD]. apply andb_true_iff in HmD. destruct HmD as [Hlm _]. apply N.ltb_lt in Hlm.
+    apply ssorted_unique; [apply ssorted_filter; assumption | assumption |].
+    intros x. rewrite filter_In, andb_true_iff, N.ltb_lt. split.
+    + intros (Hi & Hx & Ho).
+      assert (HxD : In x D).
+      { rewrite ED. apply filter_In. split; [assumption|]. apply andb_true_iff. split; [apply N.ltb_lt; lia | assumption]. }
+      rewrite <- E in HxD. apply in_app_or in HxD. destruct HxD as [HxL | HxK]; [| assumption].
+      exfalso. pose proof (ssorted_last_max _ lm _ SL HxL). fold m in H. lia.
+    + intros Hx. assert (HxD : In x D) by (rewrite <- E; apply in_or_app; right; assumption).
+      rewrite ED in HxD. apply filter_In in HxD. destruct HxD as [Hi Hc]. apply andb_true_iff in Hc. destruct Hc as [_ Ho].
+      repeat split; try assumption. apply Hlt; assumption.
+Qed.
+
+(* dropping the one element that may sit below everything else commutes with taking a prefix *)
+Lemma filter_ne_firstn : forall lm n M, ssorted M -> Forall (fun k => lm <= k) M ->
+  exists j, filter (fun k => negb (k =? lm)) (firstn n M) = firstn j (filter (fun k => negb (k =? lm)) M).
+Proof.
+  intros lm n M Hs Hge. destruct M as [| a M']; [exists 0%nat; destruct n; reflexivity|].
+  inversion Hs; subst. inversion Hge; subst.
+  assert (Hrest : forall x, In x M' -> negb (x =? lm) = true).
+  { intros x Hx. rewrite Forall_forall in H2. specialize (H2 _ Hx). apply negb_true_iff. apply N.eqb_neq. lia. }
+  destruct (N.eqb_spec a lm) as [Ea | Ea].
+  - subst a. destruct n as [| n]; [exists 0%nat; reflexivity|]. exists n. cbn [firstn filter].
+    rewrite N.eqb_refl. cbn [negb]. rewrite (filter_all _ M' Hrest).
+    apply filter_all. intros x Hx. apply Hrest. eapply In_firstn; eauto.
+  - exists n. assert (Hall : forall x, In x (a :: M') -> negb (x =? lm) = true).
+    { intros x [Hx | Hx]; [subst; apply negb_true_iff; apply N.eqb_neq; assumption | auto]. }
+    rewrite (filter_all _ (a :: M') Hall). apply filter_all. intros x Hx. apply Hall. eapply In_firstn; eauto.
+Qed.
+
+(* ---- mergeSortedMessageSlices --------------------------------------------------------------------- *)
+Lemma merge_nil_l : forall b, merge [] b = b.
+Proof. destruct b; reflexivity. Qed.
+Lemma merge_nil_r : forall a, merge a [] = a.
+Proof. destruct a; reflexivity. Qed.
+Lemma merge_cons : forall x a y b, merge (x :: a) (y :: b) = if x <? y then x :: merge a (y :: b) else y :: merge (x :: a) b.
+Proof. reflexivity. Qed.
+
+Lemma merge_In : forall a b x, In x (merge a b) <-> In x a \/ In x b.
+Proof.
+  induction a as [| h a IHa]; intros b x.
+  - rewrite merge_nil_l. cbn. tauto.
+  - induction b as [| y b IHb].
+    + rewrite merge_nil_r. cbn. tauto.
+    + rewrite merge_cons. destruct (h <? y).
+      * cbn [In]. rewrite IHa. cbn [In]. tauto.
+      * cbn [In]. rewrite IHb. cbn [In]. tauto.
+Qed.
+
+Lemma merge_sorted : forall a b, ssorted a -> ssorted b -> (forall x, In x a -> In x b -> False) -> ssorted (merge a b).
+Proof.
+  induction a as [| h a IHa]; intros b Sa Sb Hd.
+  - rewrite merge_nil_l. assumption.
+  - induction b as [| y b IHb].
+    + rewrite merge_nil_r. assumption.
+    + rewrite merge_cons. destruct (StronglySorted_inv Sa) as [Sa' Fa]. destruct (StronglySorted_inv Sb) as [Sb' Fb].
+      rewrite Forall_forall in Fa, Fb.
+      destruct (N.ltb_spec h y).
+      * constructor.
+        -- apply IHa; try assumption. intros x Hx Hy. apply (Hd x); [right; assumption | assumption].
+        -- rewrite Forall_forall. intros x Hx. apply merge_In in Hx. destruct Hx as [Hx | [Hx | Hx]]; [auto | subst; assumption |].
+           specialize (Fb _ Hx). lia.
+      * assert (h <> y) by (intro; subst; apply (Hd y); left; reflexivity).
+        constructor.
+        -- apply IHb; try assumption. intros x Hx Hy. apply (Hd x); [assumption | right; assumption].
+        -- rewrite Forall_forall. intros x Hx. apply merge_In in Hx. destruct Hx as [[Hx | Hx] | Hx]; [subst; lia | | auto].
+           specialize (Fa _ Hx). lia.
+Qed.
+
+Lemma firstn_merge : forall n p q a b, (n <= p)%nat -> (n <= q)%nat ->
+  firstn n (merge (firstn p a) (firstn q b)) = firstn n (merge a b).
+Proof.
+  induction n as [| n IH]; intros p q a b Hp Hq; [reflexivity|].
+  destruct p as [| p]; [lia|]. destruct q as [| q]; [lia|].
+  destruct a as [| x a].
+  - rewrite firstn_nil, !merge_nil_l. rewrite firstn_firstn. f_equal. lia.
+  - destruct b as [| y b].
+    + rewrite firstn_nil, !merge_nil_r. rewrite firstn_firstn. f_equal. lia.
+    + cbn [firstn]. rewrite !merge_cons. destruct (x <? y).
+      * cbn [firstn]. f_equal. change (y :: firstn q b) with (firstn (S q) (y :: b)). apply IH; lia.
+      * cbn [firstn]. f_equal. change (x :: firstn p a) with (firstn (S p) (x :: a)). apply IH; lia.
+Qed.
+
+(* ---- msgstorage ------------------------------------------------------------------------------------ *)
+Lemma insert_sorted_In : forall k l x, In x (insert_sorted k l) <-> x = k \/ In x l.
+Proof.
+  induction l as [| h l IH]; intros x; cbn [insert_sorted].
+  - cbn. intuition.
+  - destruct (k <? h); [cbn; intuition|]. destruct (N.eqb_spec k h).
+    + subst. cbn. intuition.
+    + cbn [In]. rewrite IH. intuition.
+Qed.
+
+Lemma insert_sorted_ss : forall k l, ssorted l -> ssorted (insert_sorted k l).
+Proof.
+  induction l as [| h l IH]; intros Hs; cbn [insert_sorted].
+  - constructor; constructor.
+  - inversion Hs; subst. rewrite Forall_forall in H2. destruct (N.ltb_spec k h).
+    + constructor; [assumption|]. rewrite Forall_forall. intros x [Hx | Hx]; [subst; assumption | specialize (H2 _ Hx); lia].
+    + destruct (N.eqb_spec k h); [assumption|]. constructor; [auto|].
+      rewrite Forall_forall. intros x Hx. apply insert_sorted_In in Hx. destruct Hx; [subst; lia | auto].
+Qed.
+
+Lemma fold_insert_In : forall ks fl x, In x (fold_left (fun acc k => insert_sorted k acc) ks fl) <-> In x ks \/ In x fl.
+Proof.
+  induction ks as [| k ks IH]; intros fl x; cbn [fold_left]; [cbn; tauto|].
+  rewrite IH, insert_sorted_In. cbn. intuition.
+Qed.
+
+Lemma fold_insert_ss : forall ks fl, ssorted fl -> ssorted (fold_left (fun acc k => insert_sorted k acc) ks fl).
+Proof. induction ks; intros; cbn [fold_left]; [assumption|]. apply IHks. apply insert_sorted_ss. assumption. Qed.
+
+Lemma persist_flushed_ss : forall st, ssorted (s_flushed st) -> ssorted (s_flushed (store_persist st)).
+Proof. intros. unfold store_persist. cbn [s_flushed]. unfold minus. apply ssorted_filter. apply fold_insert_ss. assumption. Qed.
+
+Lemma persist_flushed_In : forall st x, In x (s_flushed (store_persist st)) <->
+  (In x (s_flushed st) \/ (In x (s_add st) /\ ~ In x (s_del st)) \/ (In x (s_upd st) /\ ~ In x (s_del st))) /\
+  ~ (In x (s_del st) /\ ~ In x (s_add st)).
+Proof.
+  intros. unfold store_persist. cbn [s_flushed]. rewrite minus_In, fold_insert_In, in_app_iff, !minus_In. tauto.
+Qed.
+
+Lemma store_iter_eq : forall st from n, n <> 0 ->
+  store_iter st from n = firstn (N.to_nat n) (filter (fun k => from <=? k) (s_flushed st)).
+Proof. intros. unfold store_iter. destruct (N.eqb_spec n 0); [contradiction | reflexivity]. Qed.
+
+(* ---- the invariant --------------------------------------------------------------------------------- *)
+Definition st_all (st : store) : list N := s_add st ++ s_upd st ++ s_del st ++ s_flushed st.
+
+Record Inv (c : qcfg) (s : qstate) (g : ghost) : Prop := mkInv {
+  inv_abs : q_abs s = g_list g;
+  inv_len : qlen s = Z.of_nat (length (g_list g));
+  inv_ids_sorted : ssorted (allids s);
+  inv_ids_range : Forall (fun k => 0 < k < g_next g) (allids s);
+  inv_lm : lastMem s < g_next g;
+  inv_ls : lastStored s < g_next g;
+  inv_next : 0 < g_next g;
+  inv_mem : Forall (fun k => k <= lastMem s /\ In k (allids s)) (mem s);
+  inv_outst : Forall (fun k => k <= lastMem s /\ In k (allids s)) (g_outst g);
+  inv_disk_ids : Forall (fun k => In k (allids s)) (st_all (pst s) ++ st_all (tst s));
+  inv_settle : Forall (fun k => k <= lastMem s) (s_upd (pst s) ++ s_del (pst s));
+  inv_tsettle : s_upd (tst s) = [] /\ s_del (tst s) = [];
+  inv_notsw : swapped s = false -> Forall (fun k => disk_ahead s k = false) (allids s);
+  inv_sw : swapped s = true -> lastMem s <= lastStored s /\ Forall (fun k => disk_ahead s k = true -> lastStored s <= k) (allids s);
+  inv_fl : ssorted (s_flushed (pst s)) /\ ssorted (s_flushed (tst s));
+  inv_pkeys : Forall (fun k => durable c = true /\ In k (g_pers g)) (s_add (pst s) ++ s_upd (pst s) ++ s_flushed (pst s));
+  inv_tkeys : Forall (fun k => ~ (durable c = true /\ In k (g_pers g))) (s_add (tst s) ++ s_flushed (tst s));
+  inv_pers : Forall (fun k => In k (allids s)) (g_pers g)
+}.
+
+Lemma inv_init : forall c, Inv c q_init ghost_init.
+Proof.
+  intros c. constructor; cbn; try reflexivity; try lia; try (constructor; fail); auto.
+  all: try (intros; discriminate).
+  all: try (split; constructor).
+
+Qed.
+
+(* the keys that put a message "on disk" after a persist are the same, for a key that is in neither the
+   delete nor the update map *)
+Lemma persist_on_disk : forall st k, ~ In k (s_del st) ->
+  inb k (s_add (store_persist st)) || inb k (s_flushed (store_persist st)) =
+  inb k (s_add st) || inb k (s_flushed st) || inb k (s_upd st).
+Proof.
+  intros st k Hd. apply eq_true_iff_eq. rewrite !orb_true_iff, !inb_In, persist_flushed_In.
+  unfold store_persist. cbn [s_add In]. tauto.
+Qed.
+
+Lemma Forall_app_l : forall {A} (P : A -> Prop) a b, Forall P (a ++ b) -> Forall P a.
+Proof. intros. apply Forall_app in H. tauto. Qed.
+Lemma Forall_app_r : forall {A} (P : A -> Prop) a b, Forall P (a ++ b) -> Forall P b.
+Proof. intros. apply Forall_app in H. tauto. Qed.
+
+Lemma step_tick : forall c s g b, Inv c s g -> Inv c (q_tick s b) g.
+Proof.
+  intros c s g b I. destruct I.
+  destruct inv_tsettle0 as [Tu Td]. destruct inv_fl0 as [Fp Ft].
+  assert (Hsettle : forall k, lastMem s < k -> ~ In k (s_upd (pst s)) /\ ~ In k (s_del (pst s))).
+  { intros k Hk. rewrite Forall_forall in inv_settle0. split; intro Hin;
+      specialize (inv_settle0 k); rewrite in_app_iff in inv_settle0; specialize (inv_settle0 (ltac:(tauto))); lia. }
+  assert (Hon : forall k, disk_ahead (q_tick s b) k = disk_ahead s k).
+  { intros k. unfold disk_ahead, q_tick. destruct b; cbn [lastMem];
+      destruct (N.ltb_spec (lastMem s) k) as [Hk | Hk]; cbn [andb]; try reflexivity; unfold on_disk; cbn [pst tst].
+    - destruct (Hsettle k Hk) as [Hu Hd].
+      rewrite <- !orb_assoc. rewrite (orb_assoc (inb k (s_add (store_persist (pst s))))). rewrite (persist_on_disk _ _ Hd).
+      apply inb_false in Hu. rewrite Hu. rewrite orb_false_r. rewrite <- !orb_assoc. reflexivity.
+    - assert (Hd : ~ In k (s_del (tst s))) by (rewrite Td; auto).
+      rewrite <- !orb_assoc. f_equal. f_equal. rewrite (persist_on_disk _ _ Hd). rewrite Tu. cbn. rewrite orb_false_r. reflexivity. }
+  assert (Hmem : mem (q_tick s b) = mem s) by (destruct b; reflexivity).
+  assert (Hlm : lastMem (q_tick s b) = lastMem s) by (destruct b; reflexivity).
+  assert (Hls : lastStored (q_tick s b) = lastStored s) by (destruct b; reflexivity).
+  assert (Hids : allids (q_tick s b) = allids s) by (destruct b; reflexivity).
+  assert (Hsw : swapped (q_tick s b) = swapped s) by (destruct b; reflexivity).
+  assert (Hql : qlen (q_tick s b) = qlen s) by (destruct b; reflexivity).
+  constructor; rewrite ?Hmem, ?Hlm, ?Hls, ?Hids, ?Hsw, ?Hql; try assumption.
+  - unfold q_abs, abs_disk. rewrite Hmem, Hids. rewrite (filter_ext _ _ Hon). exact inv_abs0.
+  - (* disk ids *)
+    rewrite Forall_forall in *. intros k Hk. apply inv_disk_ids0. unfold st_all in *. rewrite !in_app_iff in *.
+    destruct b; unfold q_tick in Hk; cbn [pst tst] in Hk.
+    + unfold store_persist in Hk at 1 2 3. cbn [s_add s_upd s_del In] in Hk.
+      destruct Hk as [[[] | [[] | [[] | Hk]]] | Hk]; [| tauto]. apply persist_flushed_In in Hk. tauto.
+    + unfold store_persist in Hk at 1 2 3. cbn [s_add s_upd s_del In] in Hk.
+      destruct Hk as [Hk | [[] | [[] | [[] | Hk]]]]; [tauto |]. apply persist_flushed_In in Hk. tauto.
+  - destruct b; unfold q_tick; cbn [pst]; [constructor | assumption].
+  - destruct b; unfold q_tick; cbn [tst]; [split; assumption | split; reflexivity].
+  - intros Hs. specialize (inv_notsw0 Hs). rewrite Forall_forall in *. intros k Hk. rewrite Hon. auto.
+  - intros Hs. specialize (inv_sw0 Hs). destruct inv_sw0 as [A B]. split; [assumption|].
+    rewrite Forall_forall in *. intros k Hk. rewrite Hon. auto.
+  - destruct b; unfold q_tick; cbn [pst tst]; split; try assumption; apply persist_flushed_ss; assumption.
+  - destruct b; unfold q_tick; cbn [pst]; [| assumption].
+    rewrite Forall_forall in *. intros k Hk. apply inv_pkeys0. rewrite !in_app_iff in *.
+    unfold store_persist in Hk at 1 2. cbn [s_add s_upd In] in Hk. destruct Hk as [[] | [[] | Hk]].
+    apply persist_flushed_In in Hk. tauto.
+  - destruct b; unfold q_tick; cbn [tst]; [assumption |].
+    rewrite Forall_forall in *. intros k Hk. apply inv_tkeys0. rewrite !in_app_iff in *.
+    unfold store_persist in Hk at 1. cbn [s_add In] in Hk. destruct Hk as [[] | Hk].
+    apply persist_flushed_In in Hk. rewrite Tu in Hk. cbn in Hk. tauto.
+Qed.
+
+Lemma remove1_In : forall k l x, In x (remove1 k l) -> In x l.
+Proof.
+  induction l as [| h l IH]; intros x H; cbn in H; [contradiction|].
+  destruct (k =? h); [right; assumption|]. destruct H; [left; assumption | right; auto].
+Qed.
+
+Lemma abs_disk_nil : forall s, Forall (fun k => disk_ahead s k = false) (allids s) -> abs_disk s = [].
+Proof. intros s H. unfold abs_disk. apply filter_nil. rewrite Forall_forall in H. exact H. Qed.
+
+Lemma step_pop : forall c s g, Inv c s g -> hyp_step c s Pop = true ->
+  Inv c (snd (q_pop s)) (ghost_step g Pop) /\ fst (q_pop s) = hd_error (g_list g).
+Proof.
+  intros c s g I Hh. pose proof I as I0. destruct I. unfold q_pop. cbn [hyp_step] in Hh. cbn [ghost_step].
+  destruct (mem s) as [| x t] eqn:Em.
+  - destruct (abs_disk s) eqn:Ed; [| discriminate].
+    assert (El : g_list g = []) by (rewrite <- inv_abs0; unfold q_abs; rewrite Em, Ed; reflexivity).
+    rewrite El. cbn [snd fst hd_error]. split; [| reflexivity].
+    exact I0.
+  - assert (El : g_list g = x :: (t ++ abs_disk s)) by (rewrite <- inv_abs0; unfold q_abs; rewrite Em; reflexivity).
+    rewrite El. cbn [snd fst hd_error]. split; [| reflexivity].
+    apply Forall_cons_iff in inv_mem0. destruct inv_mem0 as [Hx Ht].
+    constructor; cbn [mem pst tst swapped lastStored lastMem qlen allids g_list g_next g_outst g_pers]; try assumption.
+    + reflexivity.
+    + rewrite inv_len0, El. cbn [length]. lia.
+    + constructor; assumption.
+Qed.
+
+Lemma step_requeue : forall c s g id p, Inv c s g -> wf_step g (Requeue id p) = true ->
+  Inv c (q_requeue c s id p) (ghost_step g (Requeue id p)).
+Proof.
+  intros c s g id p I Hw. destruct I. cbn [wf_step] in Hw. apply andb_true_iff in Hw. destruct Hw as [Ho Hp].
+  apply inb_In in Ho. apply eqb_prop in Hp.
+  assert (Hid : id <= lastMem s /\ In id (allids s)) by (rewrite Forall_forall in inv_outst0; auto).
+  assert (Hon : forall k, disk_ahead (q_requeue c s id p) k = disk_ahead s k).
+  { intros k. unfold disk_ahead, on_disk, q_requeue. cbn [lastMem pst tst]. destruct (durable c && p); reflexivity. }
+  unfold ghost_step. unfold q_requeue in *.
+  constructor; cbn [mem swapped lastStored lastMem qlen allids tst g_list g_next g_outst g_pers]; try assumption.
+  - unfold q_abs, abs_disk. rewrite (filter_ext _ _ Hon). cbn [mem allids app]. f_equal. exact inv_abs0.
+  - rewrite inv_len0. cbn [length]. lia.
+  - constructor; assumption.
+  - rewrite Forall_forall in *. intros k Hk. apply inv_outst0. eapply remove1_In; eauto.
+  - cbn [pst]. destruct (durable c && p); [| assumption].
+    rewrite Forall_forall in *. intros k Hk. unfold st_all in *. cbn [store_update s_add s_upd s_del s_flushed] in Hk.
+    rewrite !in_app_iff, set_key_In in Hk. destruct Hid as [_ Hid].
+    destruct Hk as [[Hk | [[Hk | Hk] | Hk]] | Hk]; try (subst; assumption); apply inv_disk_ids0; rewrite !in_app_iff; tauto.
+  - cbn [pst]. destruct (durable c && p); [| assumption].
+    rewrite Forall_forall in *. intros k Hk. cbn [store_update s_upd s_del] in Hk. rewrite in_app_iff, set_key_In in Hk.
+    destruct Hk as [[Hk | Hk] | Hk]; [| subst; tauto |]; apply inv_settle0; rewrite in_app_iff; tauto.
+  - intros Hs. specialize (inv_notsw0 Hs). rewrite Forall_forall in *. intros k Hk. rewrite Hon. auto.
+  - intros Hs. specialize (inv_sw0 Hs). destruct inv_sw0 as [A B]. split; [assumption|].
+    rewrite Forall_forall in *. intros k Hk. rewrite Hon. auto.
+  - cbn [pst]. destruct (durable c && p); assumption.
+  - cbn [pst]. destruct (durable c && p) eqn:Edp; [| assumption].
+    apply andb_true_iff in Edp. destruct Edp as [Ed Ep]. subst p.
+    rewrite Forall_forall in *. intros k Hk. cbn [store_update s_add s_upd s_flushed] in Hk. rewrite !in_app_iff, set_key_In in Hk.
+    destruct Hk as [Hk | [[Hk | Hk] | Hk]]; try (apply inv_pkeys0; rewrite !in_app_iff; tauto).
+    subst k. split; [assumption|]. apply inb_In. congruence.
+Qed.
+
+Lemma step_ack : forall c s g id p, Inv c s g -> wf_step g (AckMsg id p) = true ->
+  Inv c (q_ack c s id p) (ghost_step g (AckMsg id p)).
+Proof.
+  intros c s g id p I Hw. destruct I. cbn [wf_step] in Hw. apply andb_true_iff in Hw. destruct Hw as [Ho Hp].
+  apply inb_In in Ho.
+  assert (Hid : id <= lastMem s /\ In id (allids s)) by (rewrite Forall_forall in inv_outst0; auto).
+  assert (Hon : forall k, disk_ahead (q_ack c s id p) k = disk_ahead s k).
+  { intros k. unfold disk_ahead, on_disk, q_ack. cbn [lastMem pst tst]. destruct (durable c && p); reflexivity. }
+  unfold ghost_step. unfold q_ack in *.
+  constructor; cbn [mem swapped lastStored lastMem qlen allids tst g_list g_next g_outst g_pers]; try assumption.
+  - unfold q_abs, abs_disk. rewrite (filter_ext _ _ Hon). cbn [mem allids]. exact inv_abs0.
+  - rewrite Forall_forall in *. intros k Hk. apply inv_outst0. eapply remove1_In; eauto.
+  - cbn [pst]. destruct (durable c && p); [| assumption].
+    rewrite Forall_forall in *. intros k Hk. unfold st_all in *. cbn [store_del s_add s_upd s_del s_flushed] in Hk.
+    rewrite !in_app_iff, set_key_In in Hk. destruct Hid as [_ Hid].
+    destruct Hk as [[Hk | [Hk | [[Hk | Hk] | Hk]]] | Hk]; try (subst; assumption); apply inv_disk_ids0; rewrite !in_app_iff; tauto.
+  - cbn [pst]. destruct (durable c && p); [| assumption].
+    rewrite Forall_forall in *. intros k Hk. cbn [store_del s_upd s_del] in Hk. rewrite in_app_iff, set_key_In in Hk.
+    destruct Hk as [Hk | [Hk | Hk]]; [| | subst; tauto]; apply inv_settle0; rewrite in_app_iff; tauto.
+  - intros Hs. specialize (inv_notsw0 Hs). rewrite Forall_forall in *. intros k Hk. rewrite Hon. auto.
+  - intros Hs. specialize (inv_sw0 Hs). destruct inv_sw0 as [A B]. split; [assumption|].
+    rewrite Forall_forall in *. intros k Hk. rewrite Hon. auto.
+  - cbn [pst]. destruct (durable c && p); assumption.
+  - cbn [pst]. destruct (durable c && p); assumption.
+Qed.
+
+Lemma step_purge : forall c s g, Inv c s g -> hyp_step c s Purge = true ->
+  Inv c (snd (q_purge c s)) (ghost_step g Purge) /\ fst (q_purge c s) = Z.of_nat (length (g_list g)).
+Proof.
+  intros c s g I Hh. destruct I. cbn [hyp_step] in Hh. apply negb_true_iff in Hh.
+  specialize (inv_notsw0 Hh).
+  assert (Hd : abs_disk s = []) by (apply abs_disk_nil; assumption).
+  unfold q_purge. cbn [fst snd]. split; [| assumption].
+  assert (Hon : forall k, In k (allids s) ->
+            disk_ahead (mkQ [] (if durable c then store_purge (pst s) else pst s) (tst s) (swapped s) (lastStored s) (lastMem s) 0%Z (allids s)) k = false).
+  { intros k Hk. rewrite Forall_forall in inv_notsw0. specialize (inv_notsw0 k Hk).
+    unfold disk_ahead, on_disk in *. cbn [lastMem pst tst]. destruct (lastMem s <? k); [| reflexivity]. cbn [andb] in *.
+    apply orb_false_iff in inv_notsw0. destruct inv_notsw0 as [A T2]. apply orb_false_iff in A. destruct A as [A T1].
+    apply orb_false_iff in A. destruct A as [A1 A2].
+    destruct (durable c); cbn [store_purge s_add s_flushed]; rewrite ?A1, ?A2, ?T1, ?T2; reflexivity. }
+  unfold ghost_step.
+  constructor; cbn [mem swapped lastStored lastMem qlen allids tst pst g_list g_next g_outst g_pers]; try assumption.
+  - unfold q_abs. cbn [mem app]. apply abs_disk_nil. cbn [allids]. rewrite Forall_forall. exact Hon.
+  - reflexivity.
+  - constructor.
+  - rewrite Forall_forall in *. intros k Hk. apply inv_disk_ids0. unfold st_all in *. rewrite !in_app_iff in *.
+    destruct (durable c); [| tauto]. cbn [store_purge s_add s_upd s_del s_flushed In] in Hk. tauto.
+  - destruct (durable c); assumption.
+  - intros _. rewrite Forall_forall. exact Hon.
+  - intros Hs. congruence.
+  - destruct inv_fl0. destruct (durable c); split; try assumption. cbn. constructor.
+  - rewrite Forall_forall in *. intros k Hk. apply inv_pkeys0. rewrite !in_app_iff in *.
+    destruct (durable c); [| tauto]. cbn [store_purge s_add s_upd s_flushed In] in Hk. tauto.
+Qed.
+
+(* ---- Push -------------------------------------------------------------------------------------------- *)
+Lemma inb_set_key_other : forall l id k, k <> id -> inb k (set_key l id) = inb k l.
+Proof. intros. rewrite inb_set_key. destruct (N.eqb_spec k id); [contradiction|]. apply orb_false_r. Qed.
+
+Lemma inb_set_key_same : forall l id, inb id (set_key l id) = true.
+Proof. intros. rewrite inb_set_key, N.eqb_refl. apply orb_true_r. Qed.
+
+Lemma filter_app_single : forall (f : N -> bool) l x, filter f (l ++ [x]) = filter f l ++ (if f x then [x] else []).
+Proof. intros. rewrite filter_app. reflexivity. Qed.
+
+Section PushFacts.
+  Variables (c : qcfg) (s : qstate) (g : ghost) (id : N) (p : bool).
+  Hypothesis I : Inv c s g.
+  Hypothesis Hw : g_next g <= id.
+
+  Let pers' := if p then id :: g_pers g else g_pers g.
+  Let g' := mkGhost (id + 1) (g_list g ++ [id]) (g_outst g) pers'.
+
+  Lemma push_old_lt : forall k, In k (allids s) -> k < id.
+  Proof. intros k Hk. destruct I. rewrite Forall_forall in inv_ids_range0. specialize (inv_ids_range0 k Hk). lia. Qed.
+
+  Lemma push_ids_sorted : ssorted (allids s ++ [id]).
+  Proof. destruct I. apply ssorted_app_last; [assumption|]. rewrite Forall_forall. apply push_old_lt. Qed.
+
+  Lemma push_ids_range : Forall (fun k => 0 < k < id + 1) (allids s ++ [id]).
+  Proof.
+    destruct I. apply Forall_app. split.
+    - rewrite Forall_forall in *. intros k Hk. specialize (inv_ids_range0 k Hk). lia.
+    - constructor; [lia | constructor].
+  Qed.
+
+  Lemma push_pers_in : Forall (fun k => In k (allids s ++ [id])) pers'.
+  Proof.
+    destruct I. unfold pers'. assert (A : Forall (fun k => In k (allids s ++ [id])) (g_pers g)).
+    { rewrite Forall_forall in *. intros k Hk. apply in_or_app. left. auto. }
+    destruct p; [constructor; [apply in_or_app; right; left; reflexivity | assumption] | assumption].
+  Qed.
+
+  Lemma push_pers_old : forall k, In k (allids s) -> (In k pers' <-> In k (g_pers g)).
+  Proof.
+    intros k Hk. pose proof (push_old_lt k Hk). unfold pers'. destruct p; [| tauto]. cbn [In]. split; [intros [E | E]; [lia | assumption] | auto].
+  Qed.
+
+  Lemma push_id_not_pers : ~ In id (g_pers g).
+  Proof. destruct I. intro H. rewrite Forall_forall in inv_pers0. specialize (inv_pers0 id H). pose proof (push_old_lt id inv_pers0). lia. Qed.
+End PushFacts.
+
+Lemma q_push_mem : forall c s id p,
+  swapped s = false -> (maxram c <? N.of_nat (length (mem s))) = false ->
+  q_push c s id p = mkQ (mem s ++ [id]) (if durable c && p then store_add (pst s) id else pst s) (tst s) false
+                        (lastStored s) id (qlen s + 1)%Z (allids s ++ [id]).
+Proof.
+  intros c s id p Hs Ho. unfold q_push. rewrite Hs, Ho.
+  assert (E : (N.of_nat (length (mem s)) <=? maxram c) = true) by (apply N.leb_le; apply N.ltb_ge; assumption).
+  rewrite E. destruct (durable c && p); reflexivity.
+Qed.
+
+Lemma q_push_disk : forall c s id p,
+  swapped s = true \/ (maxram c <? N.of_nat (length (mem s))) = true ->
+  q_push c s id p = mkQ (mem s) (if durable c && p then store_add (pst s) id else pst s)
+                        (if durable c && p then tst s else store_add (tst s) id) true
+                        (if swapped s then lastStored s else id) (lastMem s) (qlen s + 1)%Z (allids s ++ [id]).
+Proof.
+  intros c s id p H. unfold q_push.
+  destruct (swapped s) eqn:Hs.
+  - destruct (durable c && p); destruct (maxram c <? N.of_nat (length (mem s))); cbn [negb andb orb]; rewrite ?andb_false_r; reflexivity.
+  - destruct H as [H | H]; [discriminate|]. rewrite H. destruct (durable c && p); cbn [negb andb orb]; rewrite ?andb_false_r; reflexivity.
+Qed.
+
+Lemma step_push : forall c s g id p, Inv c s g -> wf_step g (Push id p) = true ->
+  Inv c (q_push c s id p) (ghost_step g (Push id p)).
+Proof.
+  intros c s g id p I Hw. cbn [wf_step] in Hw. apply N.leb_le in Hw.
+  pose proof (push_old_lt c s g id I Hw) as Hold.
+  pose proof (push_ids_sorted c s g id I Hw) as Hsorted.
+  pose proof (push_ids_range c s g id I Hw) as Hrange.
+  pose proof (push_pers_in c s g id p I) as Hpers.
+  pose proof (push_pers_old c s g id p I Hw) as Hpold.
+  pose proof (push_id_not_pers c s g id I Hw) as Hnp.
+  destruct I. cbn [ghost_step].
+  set (pers' := if p then id :: g_pers g else g_pers g) in *.
+  assert (Hdisk_old : forall k, In k (st_all (pst s) ++ st_all (tst s)) -> k <> id).
+  { intros k Hk. rewrite Forall_forall in inv_disk_ids0. specialize (Hold k (inv_disk_ids0 k Hk)). lia. }
+  (* the stores after the push: P keys stay persistent, T keys stay non-persistent-durable, ids known *)
+  assert (Hpk : Forall (fun k => durable c = true /\ In k pers')
+                  (s_add (if durable c && p then store_add (pst s) id else pst s) ++
+                   s_upd (if durable c && p then store_add (pst s) id else pst s) ++
+                   s_flushed (if durable c && p then store_add (pst s) id else pst s))).
+  { rewrite Forall_forall in *. intros k Hk.
+    assert (Old : In k (s_add (pst s) ++ s_upd (pst s) ++ s_flushed (pst s)) -> durable c = true /\ In k pers').
+    { intros Hk'. destruct (inv_pkeys0 k Hk') as [A B]. split; [assumption|]. apply Hpold; [| assumption].
+      apply inv_disk_ids0. unfold st_all. rewrite !in_app_iff in *. tauto. }
+    destruct (durable c && p) eqn:Edp; [| auto].
+    cbn [store_add s_add s_upd s_flushed] in Hk. rewrite !in_app_iff, set_key_In in Hk. rewrite !in_app_iff in Old.
+    destruct Hk as [[Hk | Hk] | Hk]; [tauto | | tauto].
+    subst k. apply andb_true_iff in Edp. destruct Edp as [Ed Ep]. split; [assumption|]. unfold pers'. rewrite Ep. left; reflexivity. }
+  assert (Hdi : forall pst1 tst1,
+            (forall k, In k (st_all pst1 ++ st_all tst1) -> In k (st_all (pst s) ++ st_all (tst s)) \/ k = id) ->
+            Forall (fun k => In k (allids s ++ [id])) (st_all pst1 ++ st_all tst1)).
+  { intros pst1 tst1 H. rewrite Forall_forall in *. intros k Hk. apply in_or_app. destruct (H k Hk) as [A | A]; [left; auto | right; left; auto]. }
+  assert (Hmem_old : Forall (fun k => k <= id /\ In k (allids s ++ [id])) (mem s)).
+  { rewrite Forall_forall in *. intros k Hk. destruct (inv_mem0 k Hk). split; [lia | apply in_or_app; tauto]. }
+  destruct (swapped s) eqn:Hs; [| destruct (maxram c <? N.of_nat (length (mem s))) eqn:Ho].
+  - (* already swapped: the message goes to disk only *)
+    rewrite (q_push_disk c s id p (or_introl Hs)). rewrite Hs.
+    destruct (inv_sw0 eq_refl) as [Hle Hahead].
+    set (s' := mkQ (mem s) (if durable c && p then store_add (pst s) id else pst s)
+                   (if durable c && p then tst s else store_add (tst s) id) true (lastStored s) (lastMem s) (qlen s + 1)%Z (allids s ++ [id])).
+    assert (Hon_old : forall k, k <> id -> disk_ahead s' k = disk_ahead s k).
+    { intros k Hk. unfold disk_ahead, on_disk, s'. cbn [lastMem pst tst].
+      destruct (durable c && p); cbn [store_add s_add s_flushed]; rewrite (inb_set_key_other _ _ _ Hk); reflexivity. }
+    assert (Hon_id : disk_ahead s' id = true).
+    { unfold disk_ahead, on_disk, s'. cbn [lastMem pst tst]. apply andb_true_iff. split; [apply N.ltb_lt; lia|].
+      destruct (durable c && p); cbn [store_add s_add s_flushed]; rewrite inb_set_key_same; rewrite ?orb_true_r; reflexivity. }
+    unfold s' in *. clear s'.
+    constructor; cbn [mem swapped lastStored lastMem qlen allids tst pst g_list g_next g_outst g_pers]; try assumption; try lia.
+    + unfold q_abs, abs_disk. cbn [mem allids]. rewrite filter_app_single, Hon_id.
+      rewrite (filter_ext_in _ (disk_ahead s)); [rewrite app_assoc; f_equal; exact inv_abs0|].
+      intros k Hk. apply Hon_old. specialize (Hold k Hk). lia.
+    + rewrite inv_len0, app_length. cbn [length]. lia.
+    + rewrite Forall_forall in *. intros k Hk. destruct (inv_mem0 k Hk). split; [assumption | apply in_or_app; tauto].
+    + rewrite Forall_forall in *. intros k Hk. destruct (inv_outst0 k Hk). split; [assumption | apply in_or_app; tauto].
+    + apply Hdi. intros k Hk. unfold st_all in *. rewrite !in_app_iff in *.
+      destruct (durable c && p); cbn [store_add s_add s_upd s_del s_flushed] in Hk; rewrite set_key_In in Hk; tauto.
+    + destruct (durable c && p); assumption.
+    + destruct (durable c && p); assumption.
+    + intros _. split; [assumption|]. apply Forall_app. split.
+      * rewrite Forall_forall in *. intros k Hk. rewrite Hon_old; [auto | specialize (Hold k Hk); lia].
+      * constructor; [intros _; lia | constructor].
+    + destruct inv_fl0. destruct (durable c && p); split; assumption.
+    + rewrite Forall_forall in *. intros k Hk.
+      assert (Old : In k (s_add (tst s) ++ s_flushed (tst s)) -> ~ (durable c = true /\ In k pers')).
+      { intros Hk' [A B]. apply (inv_tkeys0 k Hk'). split; [assumption|]. apply Hpold; [| assumption].
+        apply inv_disk_ids0. unfold st_all. rewrite !in_app_iff in *. tauto. }
+      destruct (durable c && p) eqn:Edp; [auto|].
+      cbn [store_add s_add s_flushed] in Hk. rewrite !in_app_iff, set_key_In in Hk. rewrite in_app_iff in Old.
+      destruct Hk as [[Hk | Hk] | Hk]; [tauto | | tauto]. subst k. intros [A B].
+      unfold pers' in B. destruct p; [rewrite A in Edp; discriminate | contradiction].
+  - (* the overflow starts with this message *)
+    rewrite (q_push_disk c s id p (or_intror Ho)). rewrite Hs.
+    specialize (inv_notsw0 eq_refl).
+    set (s' := mkQ (mem s) (if durable c && p then store_add (pst s) id else pst s)
+                   (if durable c && p then tst s else store_add (tst s) id) true id (lastMem s) (qlen s + 1)%Z (allids s ++ [id])).
+    assert (Hon_old : forall k, k <> id -> disk_ahead s' k = disk_ahead s k).
+    { intros k Hk. unfold disk_ahead, on_disk, s'. cbn [lastMem pst tst].
+      destruct (durable c && p); cbn [store_add s_add s_flushed]; rewrite (inb_set_key_other _ _ _ Hk); reflexivity. }
+    assert (Hon_id : disk_ahead s' id = true).
+    { unfold disk_ahead, on_disk, s'. cbn [lastMem pst tst]. apply andb_true_iff. split; [apply N.ltb_lt; lia|].
+      destruct (durable c && p); cbn [store_add s_add s_flushed]; rewrite inb_set_key_same; rewrite ?orb_true_r; reflexivity. }
+    unfold s' in *. clear s'.
+    constructor; cbn [mem swapped lastStored lastMem qlen allids tst pst g_list g_next g_outst g_pers]; try assumption; try lia.
+    + unfold q_abs, abs_disk. cbn [mem allids]. rewrite filter_app_single, Hon_id.
+      rewrite (filter_ext_in _ (disk_ahead s)); [rewrite app_assoc; f_equal; exact inv_abs0|].
+      intros k Hk. apply Hon_old. specialize (Hold k Hk). lia.
+    + rewrite inv_len0, app_length. cbn [length]. lia.
+    + rewrite Forall_forall in *. intros k Hk. destruct (inv_mem0 k Hk). split; [assumption | apply in_or_app; tauto].
+    + rewrite Forall_forall in *. intros k Hk. destruct (inv_outst0 k Hk). split; [assumption | apply in_or_app; tauto].
+    + apply Hdi. intros k Hk. unfold st_all in *. rewrite !in_app_iff in *.
+      destruct (durable c && p); cbn [store_add s_add s_upd s_del s_flushed] in Hk; rewrite set_key_In in Hk; tauto.
+    + destruct (durable c && p); assumption.
+    + destruct (durable c && p); assumption.
+    + intros _. split; [lia|]. apply Forall_app. split.
+      * rewrite Forall_forall in *. intros k Hk. rewrite Hon_old; [| specialize (Hold k Hk); lia]. rewrite (inv_notsw0 k Hk). discriminate.
+      * constructor; [intros _; lia | constructor].
+    + destruct inv_fl0. destruct (durable c && p); split; assumption.
+    + rewrite Forall_forall in *. intros k Hk.
+      assert (Old : In k (s_add (tst s) ++ s_flushed (tst s)) -> ~ (durable c = true /\ In k pers')).
+      { intros Hk' [A B]. apply (inv_tkeys0 k Hk'). split; [assumption|]. apply Hpold; [| assumption].
+        apply inv_disk_ids0. unfold st_all. rewrite !in_app_iff in *. tauto. }
+      destruct (durable c && p) eqn:Edp; [auto|].
+      cbn [store_add s_add s_flushed] in Hk. rewrite !in_app_iff, set_key_In in Hk. rewrite in_app_iff in Old.
+      destruct Hk as [[Hk | Hk] | Hk]; [tauto | | tauto]. subst k. intros [A B].
+      unfold pers' in B. destruct p; [rewrite A in Edp; discriminate | contradiction].
+  - (* into the ring *)
+    rewrite (q_push_mem c s id p Hs Ho).
+    specialize (inv_notsw0 eq_refl).
+    set (s' := mkQ (mem s ++ [id]) (if durable c && p then store_add (pst s) id else pst s) (tst s) false (lastStored s) id (qlen s + 1)%Z (allids s ++ [id])).
+    assert (Hnone : forall k, In k (allids s ++ [id]) -> disk_ahead s' k = false).
+    { intros k Hk. unfold disk_ahead, s'. cbn [lastMem]. apply andb_false_iff. left. apply N.ltb_ge.
+      apply in_app_or in Hk. destruct Hk as [Hk | [Hk | []]]; [specialize (Hold k Hk); lia | lia]. }
+    assert (Hd0 : abs_disk s = []) by (apply abs_disk_nil; assumption).
+    unfold s' in *. clear s'.
+    constructor; cbn [mem swapped lastStored lastMem qlen allids tst pst g_list g_next g_outst g_pers]; try assumption; try lia.
+    + unfold q_abs. rewrite abs_disk_nil; [| cbn [allids]; rewrite Forall_forall; exact Hnone].
+      cbn [mem]. rewrite app_nil_r. f_equal. rewrite <- inv_abs0. unfold q_abs. rewrite Hd0, app_nil_r. reflexivity.
+    + rewrite inv_len0, app_length. cbn [length]. lia.
+    + apply Forall_app. split; [assumption|]. constructor; [| constructor]. split; [lia | apply in_or_app; right; left; reflexivity].
+    + rewrite Forall_forall in *. intros k Hk. destruct (inv_outst0 k Hk). split; [lia | apply in_or_app; tauto].
+    + apply Hdi. intros k Hk. unfold st_all in *. rewrite !in_app_iff in *.
+      destruct (durable c && p); cbn [store_add s_add s_upd s_del s_flushed] in Hk; rewrite ?set_key_In in Hk; tauto.
+    + destruct (durable c && p); cbn [store_add s_upd s_del]; rewrite Forall_forall in *; intros k Hk; specialize (inv_settle0 k Hk); lia.
+    + intros _. rewrite Forall_forall. exact Hnone.
+    + destruct inv_fl0. destruct (durable c && p); split; assumption.
+    + rewrite Forall_forall in *. intros k Hk [A B]. apply (inv_tkeys0 k Hk). split; [assumption|]. apply Hpold; [| assumption].
+      apply inv_disk_ids0. unfold st_all. rewrite !in_app_iff in *. tauto.
+Qed.
+
+(* ---- the loader ------------------------------------------------------------------------------------------ *)
+Lemma firstn_nil_inv : forall {A} n (l : list A), firstn n l = [] -> (1 <= n)%nat -> l = [].
+Proof. intros A n l H Hn. destruct n; [lia|]. destruct l; [reflexivity | discriminate]. Qed.
+
+Lemma firstn_single_inv : forall {A} n (l : list A) a, firstn n l = [a] -> (2 <= n)%nat -> l = [a].
+Proof.
+  intros A n l a H Hn. destruct n as [| [| n]]; try lia. destruct l as [| x [| y l]]; cbn in H; try discriminate; assumption.
+Qed.
+
+Lemma last_default_irrel : forall (l : list N) d1 d2, l <> [] -> last l d1 = last l d2.
+Proof.
+  induction l as [| a l IH]; intros d1 d2 H; [congruence|]. destruct l as [| b l]; [reflexivity|].
+  change (last (b :: l) d1 = last (b :: l) d2). apply IH. discriminate.
+Qed.
+
+Lemma filter_nil_inv : forall {A} (f : A -> bool) l, filter f l = [] -> forall x, In x l -> f x = false.
+Proof.
+  induction l as [| a l IH]; intros H x Hx; [contradiction|]. cbn in H. destruct (f a) eqn:E; [discriminate|].
+  destruct Hx; [subst; assumption | auto].
+Qed.
+
+(* if the iteration of a store neither came back empty nor ended on something other than lastMem,
+   the store holds nothing at or beyond lastStored except possibly lastMem itself *)
+Lemma not_still_swapped : forall lm ls n fl,
+  ssorted fl -> lm <= ls -> (2 <= n)%nat ->
+  still_swapped lm (firstn n (filter (fun k => ls <=? k) fl)) = false ->
+  forall x, In x (filter (fun k => ls <=? k) fl) -> x = lm.
+Proof.
+  intros lm ls n fl Hs Hle Hn H x Hx.
+  set (P' := filter (fun k => ls <=? k) fl) in *.
+  assert (SP : ssorted P') by (apply ssorted_filter; assumption).
+  assert (Hge : forall y, In y P' -> lm <= y).
+  { intros y Hy. unfold P' in Hy. apply filter_In in Hy. destruct Hy as [_ Hy]. apply N.leb_le in Hy. lia. }
+  unfold still_swapped in H. apply negb_false_iff in H. apply orb_true_iff in H.
+  destruct (firstn n P') as [| a [| b r]] eqn:Ef.
+  - apply firstn_nil_inv in Ef; [| lia]. rewrite Ef in Hx. contradiction.
+  - destruct H as [H | H]; [cbn in H; discriminate|]. cbn [last] in H. apply N.eqb_eq in H.
+    apply firstn_single_inv in Ef; [| assumption]. rewrite Ef in Hx. destruct Hx as [Hx | []]. congruence.
+  - exfalso. destruct H as [H | H]; [cbn in H; discriminate|]. apply N.eqb_eq in H.
+    assert (Sf : ssorted (a :: b :: r)) by (rewrite <- Ef; apply ssorted_firstn; assumption).
+    assert (Ha : In a P') by (apply (In_firstn n); rewrite Ef; left; reflexivity).
+    assert (Hb : In b (a :: b :: r)) by (right; left; reflexivity).
+    pose proof (ssorted_last_max _ 0 _ Sf Hb) as Hmax. rewrite <- H in Hmax.
+    pose proof (ssorted_head_lt _ _ _ Sf (or_introl eq_refl)) as Hab.
+    specialize (Hge a Ha). lia.
+Qed.
+
+Lemma loader_needle_facts : forall c s, 2 <= maxram c -> maxram c < W64 ->
+  (maxram c / 2 <=? N.of_nat (length (mem s))) = false ->
+  loader_needle c s = maxram c - N.of_nat (length (mem s)) /\ 2 <= loader_needle c s.
+Proof.
+  intros c s H2 HW Hc. apply N.leb_gt in Hc. unfold loader_needle, W64 in *.
+  assert (Hcur : N.of_nat (length (mem s)) < maxram c).
+  { assert (maxram c / 2 <= maxram c) by (apply N.div_le_upper_bound; lia). lia. }
+  assert (E : (maxram c + 18446744073709551616 - N.of_nat (length (mem s))) mod 18446744073709551616 = maxram c - N.of_nat (length (mem s))).
+  { replace (maxram c + 18446744073709551616 - N.of_nat (length (mem s)))
+      with (maxram c - N.of_nat (length (mem s)) + 1 * 18446744073709551616) by lia.
+    rewrite N.mod_add by discriminate. apply N.mod_small. lia. }
+  rewrite E. split; [reflexivity|].
+  assert (2 * (maxram c / 2) <= maxram c) by (apply N.mul_div_le; discriminate).
+  assert (maxram c < 2 * (maxram c / 2) + 2).
+  { pose proof (N.div_mod (maxram c) 2 ltac:(discriminate)). pose proof (N.mod_lt (maxram c) 2 ltac:(discriminate)). lia. }
+  lia.
+Qed.
+
+Lemma nil_no_elem : forall {A} (l : list A), (forall x, In x l -> False) -> l = [].
+Proof. intros A [| a l] H; [reflexivity|]. exfalso. apply (H a). left; reflexivity. Qed.
+
+Lemma loaded_is_prefix : forall c s g, Inv c s g -> 2 <= maxram c -> maxram c < W64 ->
+  loader_proceeds c s = true -> unflushed_ahead s = false ->
+  exists j, loader_loaded c s = firstn j (abs_disk s).
+Proof.
+  intros c s g I H2 HW Hp Hu. destruct I.
+  unfold loader_proceeds in Hp. apply negb_true_iff in Hp. apply orb_false_iff in Hp. destruct Hp as [Hp Hsw].
+  apply orb_false_iff in Hp. destruct Hp as [Hc Hn0]. apply negb_false_iff in Hsw.
+  destruct (loader_needle_facts c s H2 HW Hc) as [En Hn2].
+  destruct (inv_sw0 Hsw) as [Hle Hahead]. destruct inv_fl0 as [Fp Ft].
+  unfold loader_loaded.
+  set (needle := loader_needle c s) in *. set (n := N.to_nat needle).
+  assert (Hnn : (2 <= n)%nat) by (unfold n; lia).
+  assert (Hne : needle <> 0) by lia.
+  rewrite !(store_iter_eq _ _ _ Hne). fold n.
+  set (P' := filter (fun k => lastStored s <=? k) (s_flushed (pst s))).
+  set (T' := filter (fun k => lastStored s <=? k) (s_flushed (tst s))).
+  set (sorted := merge (firstn n P') (firstn n T')).
+  (* the cut at pos is the cut at needle *)
+  assert (Ecut : firstn (N.to_nat (if N.of_nat (length sorted) <=? needle then N.of_nat (length sorted) else needle)) sorted = firstn n sorted).
+  { destruct (N.leb_spec (N.of_nat (length sorted)) needle).
+    - rewrite Nnat.Nat2N.id. rewrite firstn_all. symmetry. apply firstn_all2. unfold n. lia.
+    - reflexivity. }
+  rewrite Ecut. unfold sorted. rewrite (firstn_merge n n n P' T') by lia.
+  set (M := merge P' T').
+  assert (SP : ssorted P') by (apply ssorted_filter; assumption).
+  assert (ST : ssorted T') by (apply ssorted_filter; assumption).
+  assert (Hdisj : forall x, In x P' -> In x T' -> False).
+  { intros x Hx Hy. unfold P', T' in *. apply filter_In in Hx. apply filter_In in Hy. destruct Hx as [Hx _]. destruct Hy as [Hy _].
+    rewrite Forall_forall in inv_pkeys0, inv_tkeys0.
+    apply (inv_tkeys0 x); [apply in_or_app; right; assumption|]. apply inv_pkeys0. rewrite !in_app_iff. tauto. }
+  assert (SM : ssorted M) by (apply merge_sorted; assumption).
+  assert (HM : forall x, In x M <-> (In x (s_flushed (pst s)) \/ In x (s_flushed (tst s))) /\ lastStored s <= x).
+  { intros x. unfold M. rewrite merge_In. unfold P', T'. rewrite !filter_In, N.leb_le. tauto. }
+  assert (Hge : Forall (fun k => lastMem s <= k) M).
+  { rewrite Forall_forall. intros x Hx. apply HM in Hx. lia. }
+  destruct (filter_ne_firstn (lastMem s) n M SM Hge) as [j Ej].
+  exists j. rewrite Ej. f_equal.
+  (* what the stores hold at or beyond lastStored, lastMem excepted, is what is ahead on disk *)
+  apply ssorted_unique; [apply ssorted_filter; assumption | unfold abs_disk; apply ssorted_filter; assumption |].
+  intros x. unfold abs_disk. rewrite !filter_In, negb_true_iff, N.eqb_neq, HM. unfold disk_ahead, on_disk.
+  rewrite andb_true_iff, N.ltb_lt, !orb_true_iff, !inb_In.
+  rewrite Forall_forall in inv_disk_ids0, Hahead.
+  split.
+  - intros ((Hfl & Hls) & Hne'). split; [| split; [lia | tauto]].
+    apply inv_disk_ids0. unfold st_all. rewrite !in_app_iff. tauto.
+  - intros (Hin & Hlt & Hon).
+    assert (Ha : disk_ahead s x = true).
+    { unfold disk_ahead, on_disk. rewrite andb_true_iff, N.ltb_lt, !orb_true_iff, !inb_In. tauto. }
+    specialize (Hahead x Hin Ha).
+    unfold unflushed_ahead in Hu. rewrite <- not_true_iff_false, existsb_exists in Hu.
+    assert (Hna : ~ In x (s_add (pst s) ++ s_add (tst s))).
+    { intro Hx. apply Hu. exists x. split; [assumption | apply N.ltb_lt; assumption]. }
+    rewrite in_app_iff in Hna. split; [split; [tauto | assumption] | lia].
+Qed.
+
+Lemma step_loader : forall c s g, Inv c s g -> 2 <= maxram c -> maxram c < W64 ->
+  hyp_step c s LoaderTurn = true -> Inv c (q_loader c s) g.
+Proof.
+  intros c s g I H2 HW Hh. cbn [hyp_step] in Hh. unfold q_loader.
+  destruct (loader_proceeds c s) eqn:Hp; [| exact I].
+  cbn [andb] in Hh. apply negb_true_iff in Hh.
+  destruct (loaded_is_prefix c s g I H2 HW Hp Hh) as [j Ej].
+  pose proof I as I0. destruct I.
+  unfold loader_proceeds in Hp. apply negb_true_iff in Hp. apply orb_false_iff in Hp. destruct Hp as [Hp Hsw].
+  apply orb_false_iff in Hp. destruct Hp as [Hc Hn0]. apply negb_false_iff in Hsw.
+  destruct (loader_needle_facts c s H2 HW Hc) as [En Hn2].
+  destruct (inv_sw0 Hsw) as [Hle Hahead]. destruct inv_fl0 as [Fp Ft].
+  set (needle := loader_needle c s) in *.
+  assert (Hne : needle <> 0) by lia.
+  set (L := loader_loaded c s) in *.
+  set (D := abs_disk s) in *.
+  assert (SD : ssorted D) by (unfold D, abs_disk; apply ssorted_filter; assumption).
+  assert (SL : ssorted L) by (rewrite Ej; apply ssorted_firstn; assumption).
+  assert (HLD : forall x, In x L -> In x D) by (intros x Hx; rewrite Ej in Hx; eapply In_firstn; eauto).
+  assert (HDin : forall x, In x D -> In x (allids s) /\ lastMem s < x).
+  { intros x Hx. unfold D, abs_disk in Hx. apply filter_In in Hx. destruct Hx as [A B]. unfold disk_ahead in B.
+    apply andb_true_iff in B. destruct B as [B _]. apply N.ltb_lt in B. tauto. }
+  assert (Hlast_ge : forall d, lastMem s <= d -> lastMem s <= last L d).
+  { intros d Hd. destruct L as [| a L'] eqn:EL; [exact Hd|].
+    assert (In (last (a :: L') d) (a :: L')) by (apply last_In; discriminate).
+    destruct (HDin _ (HLD _ H)). lia. }
+  assert (Hlast_lt : forall d, d < g_next g -> last L d < g_next g).
+  { intros d Hd. destruct L as [| a L'] eqn:EL; [exact Hd|].
+    assert (In (last (a :: L') d) (a :: L')) by (apply last_In; discriminate).
+    destruct (HDin _ (HLD _ H)) as [A _]. rewrite Forall_forall in inv_ids_range0. specialize (inv_ids_range0 _ A). lia. }
+  (* what stays ahead *)
+  assert (Erest : filter (fun k => (last L (lastMem s) <? k) && on_disk s k) (allids s) = skipn j D).
+  { apply (prefix_split (on_disk s) (lastMem s) (allids s) j D L); [assumption | reflexivity | exact Ej]. }
+  set (pm := store_iter (pst s) (lastStored s) needle) in *.
+  set (tm := store_iter (tst s) (lastStored s) needle) in *.
+  set (s' := mkQ (mem s ++ L) (pst s) (tst s) (still_swapped (lastMem s) pm || still_swapped (lastMem s) tm)
+                 (last L (lastStored s)) (last L (lastMem s)) (qlen s) (allids s)).
+  assert (Eabs' : abs_disk s' = skipn j D) by exact Erest.
+  constructor; unfold s'; cbn [mem swapped lastStored lastMem qlen allids tst pst]; try assumption; try (apply Hlast_lt; assumption).
+  - unfold q_abs. fold s'. change (mem s') with (mem s ++ L). rewrite Eabs', <- app_assoc. rewrite Ej at 1. rewrite firstn_skipn. exact inv_abs0.
+  - apply Forall_app. split.
+    + rewrite Forall_forall in *. intros k Hk. destruct (inv_mem0 k Hk) as [A B]. split; [| assumption].
+      specialize (Hlast_ge (lastMem s) (N.le_refl _)). lia.
+    + rewrite Forall_forall. intros k Hk. split; [apply ssorted_last_max; assumption | apply HDin; apply HLD; assumption].
+  - rewrite Forall_forall in *. intros k Hk. destruct (inv_outst0 k Hk) as [A B]. split; [| assumption].
+    specialize (Hlast_ge (lastMem s) (N.le_refl _)). lia.
+  - rewrite Forall_forall in *. intros k Hk. specialize (inv_settle0 k Hk).
+    specialize (Hlast_ge (lastMem s) (N.le_refl _)). lia.
+  - (* not swapped any more: nothing is ahead *)
+    intros Hns. apply orb_false_iff in Hns. destruct Hns as [HnP HnT].
+    assert (Hn : (2 <= N.to_nat needle)%nat) by lia.
+    unfold pm in HnP. unfold tm in HnT. rewrite (store_iter_eq _ _ _ Hne) in HnP. rewrite (store_iter_eq _ _ _ Hne) in HnT.
+    pose proof (not_still_swapped _ _ _ _ Fp Hle Hn HnP) as AllP.
+    pose proof (not_still_swapped _ _ _ _ Ft Hle Hn HnT) as AllT.
+    (* then D is empty *)
+    assert (ED : D = []).
+    { apply nil_no_elem. intros x Hx.
+      destruct (HDin x Hx) as [Hin Hlt].
+      unfold D, abs_disk in Hx. apply filter_In in Hx. destruct Hx as [_ Hx].
+      pose proof Hx as Ha. rewrite Forall_forall in Hahead. specialize (Hahead x Hin Ha).
+      unfold disk_ahead, on_disk in Hx. rewrite andb_true_iff, !orb_true_iff, !inb_In in Hx. destruct Hx as [_ Hx].
+      unfold unflushed_ahead in Hh. rewrite <- not_true_iff_false, existsb_exists in Hh.
+      assert (Hna : ~ In x (s_add (pst s) ++ s_add (tst s))).
+      { intro Hx'. apply Hh. exists x. split; [assumption | apply N.ltb_lt; assumption]. }
+      rewrite in_app_iff in Hna.
+      destruct Hx as [[[Hx | Hx] | Hx] | Hx]; try tauto.
+      - assert (x = lastMem s) by (apply AllP; apply filter_In; split; [assumption | apply N.leb_le; assumption]). lia.
+      - assert (x = lastMem s) by (apply AllT; apply filter_In; split; [assumption | apply N.leb_le; assumption]). lia. }
+    rewrite ED in Eabs'. rewrite skipn_nil in Eabs'. rewrite Forall_forall. intros k Hk.
+    exact (filter_nil_inv _ _ Eabs' k Hk).
+  - intros _. destruct L as [| a L'] eqn:EL.
+    + cbn [last]. split; [assumption|]. rewrite Forall_forall in *. intros k Hk Ha. apply Hahead; assumption.
+    + rewrite (last_default_irrel (a :: L') (lastMem s) (lastStored s)) by discriminate. split; [lia|].
+      rewrite Forall_forall. intros k Hk Ha. unfold disk_ahead in Ha. cbn [lastMem] in Ha. apply andb_true_iff in Ha. destruct Ha as [Ha _].
+      apply N.ltb_lt in Ha. lia.
+  - split; assumption.
+Qed.
+
+(* ---- every label ------------------------------------------------------------------------------------------ *)
+Definition cfg_ok (c : qcfg) : Prop := 2 <= maxram c /\ maxram c < W64.
+
+Lemma step_all : forall c s g lab, Inv c s g -> cfg_ok c -> wf_step g lab = true -> hyp_step c s lab = true ->
+  Inv c (fst (q_step c s lab)) (ghost_step g lab) /\
+  snd (q_step c s lab) = snd (spec_step (g_list g) lab) /\
+  g_list (ghost_step g lab) = fst (spec_step (g_list g) lab).
+Proof.
+  intros c s g lab I [H2 HW] Hw Hh. destruct lab as [id p | | id p | id p | | | b]; cbn [q_step spec_step fst snd].
+  - split; [apply step_push; assumption | split; reflexivity].
+  - destruct (step_pop c s g I Hh) as [A B]. destruct (q_pop s) as [r s'] eqn:E. cbn [fst snd] in *.
+    split; [assumption|]. split; [congruence|]. cbn [ghost_step]. destruct (g_list g) eqn:El; cbn [g_list tl]; rewrite ?El; reflexivity.
+  - split; [apply step_requeue; assumption | split; reflexivity].
+  - split; [apply step_ack; assumption | split; reflexivity].
+  - destruct (step_purge c s g I Hh) as [A B]. destruct (q_purge c s) as [n s'] eqn:E. cbn [fst snd] in *.
+    split; [assumption|]. split; [congruence | reflexivity].
+  - split; [apply step_loader; assumption | split; reflexivity].
+  - split; [apply step_tick; assumption | split; reflexivity].
+Qed.
+
+Lemma run_refines : forall c ls s g, Inv c s g -> cfg_ok c -> wf_client_from g ls = true -> hyps_from c s ls = true ->
+  snd (q_run c s ls) = snd (spec_run (g_list g) ls) /\
+  q_abs (fst (q_run c s ls)) = fst (spec_run (g_list g) ls) /\
+  qlen (fst (q_run c s ls)) = Z.of_nat (length (fst (spec_run (g_list g) ls))).
+Proof.
+  intros c. induction ls as [| lab t IH]; intros s g I Hc Hw Hh.
+  - cbn. destruct I. repeat split; try reflexivity; assumption.
+  - cbn [wf_client_from hyps_from] in Hw, Hh. apply andb_true_iff in Hw, Hh. destruct Hw as [Hw1 Hw2]. destruct Hh as [Hh1 Hh2].
+    destruct (step_all c s g lab I Hc Hw1 Hh1) as (I' & Eo & El).
+    cbn [q_run spec_run].
+    destruct (q_step c s lab) as [s1 o] eqn:E1. destruct (spec_step (g_list g) lab) as [l1 o'] eqn:E2. cbn [fst snd] in *.
+    specialize (IH s1 (ghost_step g lab) I' Hc Hw2 Hh2). rewrite El in IH.
+    destruct (q_run c s1 t) as [s2 os]. destruct (spec_run l1 t) as [l2 os']. cbn [fst snd] in *.
+    destruct IH as (A & B & C). subst. repeat split; assumption.
+Qed.
+
+Lemma no_findings_cfg : forall c ls, no_findings c ls = true -> cfg_ok c /\ hyps_from c q_init ls = true.
+Proof.
+  intros c ls H. unfold no_findings in H. apply andb_true_iff in H. destruct H as [H H3]. apply andb_true_iff in H. destruct H as [H1 H2].
+  apply N.leb_le in H1. apply N.ltb_lt in H2. unfold cfg_ok. auto.
+Qed.
+
+(* refinement of the unlimited FIFO list *)
+Lemma refines_unlimited : forall c ls, wf_client ls = true -> no_findings c ls = true ->
+  snd (q_run c q_init ls) = snd (spec_run [] ls) /\
+  q_abs (fst (q_run c q_init ls)) = fst (spec_run [] ls) /\
+  qlen (fst (q_run c q_init ls)) = Z.of_nat (length (fst (spec_run [] ls))).
+Proof.
+  intros c ls Hw Hn. destruct (no_findings_cfg c ls Hn) as [Hc Hh].
+  exact (run_refines c ls q_init ghost_init (inv_init c) Hc Hw Hh).
+Qed.
+
+(* the specification ignores the internal turns *)
+Lemma spec_run_client : forall ls l,
+  fst (spec_run l ls) = fst (spec_run l (client ls)) /\
+  client_outs ls (snd (spec_run l ls)) = snd (spec_run l (client ls)).
+Proof.
+  induction ls as [| lab t IH]; intros l; [split; reflexivity|].
+  unfold client in *. cbn [filter spec_run].
+  destruct (is_client lab) eqn:Ec.
+  - cbn [spec_run]. destruct (spec_step l lab) as [l1 o]. specialize (IH l1).
+    destruct (spec_run l1 t) as [l2 os]. destruct (spec_run l1 (filter is_client t)) as [l2' os'].
+    cbn [fst snd client_outs] in *. rewrite Ec. destruct IH as [A B]. subst. split; reflexivity.
+  - assert (Hs : spec_step l lab = (l, ONone)) by (destruct lab; try discriminate; reflexivity). rewrite Hs.
+    specialize (IH l). destruct (spec_run l t) as [l2 os]. cbn [fst snd client_outs] in *. rewrite Ec. exact IH.
+Qed.
+
+Lemma client_outs_len : forall c ls s, length (snd (q_run c s ls)) = length ls.
+Proof.
+  intros c. induction ls as [| lab t IH]; intros s; [reflexivity|]. cbn [q_run].
+  destruct (q_step c s lab) as [s1 o]. specialize (IH s1). destruct (q_run c s1 t). cbn [snd length] in *. congruence.
+Qed.
+
+(* C19, partial: under the hypotheses on both runs, the client-visible outputs and the final contents agree *)
+Lemma config_independent_partial : forall d m1 m2 ls1 ls2,
+  wf_client ls1 = true -> wf_client ls2 = true -> client ls1 = client ls2 ->
+  no_findings (mkCfg d m1) ls1 = true -> no_findings (mkCfg d m2) ls2 = true ->
+  let r1 := q_run (mkCfg d m1) q_init ls1 in
+  let r2 := q_run (mkCfg d m2) q_init ls2 in
+  client_outs ls1 (snd r1) = client_outs ls2 (snd r2) /\ q_abs (fst r1) = q_abs (fst r2).
+Proof.
+  intros d m1 m2 ls1 ls2 W1 W2 Ec N1 N2 r1 r2.
+  destruct (refines_unlimited _ _ W1 N1) as (O1 & A1 & _). destruct (refines_unlimited _ _ W2 N2) as (O2 & A2 & _).
+  unfold r1, r2. rewrite O1, O2, A1, A2.
+  destruct (spec_run_client ls1 []) as [F1 C1]. destruct (spec_run_client ls2 []) as [F2 C2].
+  rewrite C1, C2, F1, F2, Ec. split; reflexivity.
+Qed.
+
+(* the hypotheses are closed under prefixes *)
+Lemma wf_client_from_app : forall a b g, wf_client_from g (a ++ b) = true -> wf_client_from g a = true.
+Proof.
+  induction a as [| lab a IH]; intros b g H; [reflexivity|]. cbn [app wf_client_from] in *.
+  apply andb_true_iff in H. destruct H as [H1 H2]. rewrite H1. cbn [andb]. eapply IH; eauto.
+Qed.
+
+Lemma hyps_from_app : forall c a b s, hyps_from c s (a ++ b) = true -> hyps_from c s a = true.
+Proof.
+  intros c. induction a as [| lab a IH]; intros b s H; [reflexivity|]. cbn [app hyps_from] in *.
+  apply andb_true_iff in H. destruct H as [H1 H2]. rewrite H1. cbn [andb]. eapply IH; eauto.
+Qed.
+
+(* queue-level C20: at every state of a run that satisfies the hypotheses, queueLength = what the queue holds *)
+Lemma queue_length_partial : forall c ls1 ls2,
+  wf_client (ls1 ++ ls2) = true -> no_findings c (ls1 ++ ls2) = true ->
+  let s := fst (q_run c q_init ls1) in
+  qlen s = Z.of_nat (length (q_abs s)) /\ q_abs s = fst (spec_run [] ls1).
+Proof.
+  intros c ls1 ls2 Hw Hn s. destruct (no_findings_cfg _ _ Hn) as [Hc Hh].
+  apply wf_client_from_app in Hw. apply hyps_from_app in Hh.
+  destruct (run_refines c ls1 q_init ghost_init (inv_init c) Hc Hw Hh) as (_ & A & B).
+  unfold s. rewrite B, A. split; reflexivity.
+Qed.
 
 (* ---- the full-strength statement and its refutations ----------------------------------------
 
